@@ -245,6 +245,10 @@ def derived_cases(rng, tier):
                 for cid in ("rp", None):
                     mk(cls, {"azp": az, "aud": aud}, {"nonce": "n-0S6_WzA2Mj", "client_id": cid},
                        options=[["iss", {"essential": True, "value": "https://op"}]])
+        # an explicit clock value of 0 (epoch-relative test clocks, simulated time) is a clock value, not "no clock given"
+        for ch in ({"exp": 5, "iat": 0}, {"exp": 5, "iat": 0, "nbf": 3}, {"exp": 5, "iat": 4}, {"exp": 0, "iat": 0}, {"exp": -1, "iat": -5}, {"exp": 5, "iat": -2, "nbf": 0}):
+            for lw in (0, 2):
+                mk(cls, ch, {"nonce": "n-0S6_WzA2Mj", "client_id": "rp"}, lw=lw, now=0)
         for off, lw in ((-1, 0), (-1, 2), (-3, 2), (0, 0)):
             mk(cls, {"exp": D_NOW + off}, {"nonce": "n-0S6_WzA2Mj", "client_id": "rp"}, lw=lw)
             mk(cls, {"nbf": D_NOW - off}, {"nonce": "n-0S6_WzA2Mj", "client_id": "rp"}, lw=lw)
